@@ -21,6 +21,7 @@ RULE = ("(taps) lagrange_taps(d, h) for odd orders 1..111 and d in [0,1) (incl. 
         "Distinct by case descriptor; non-trivial: at least one interior sample.")
 ASSUMPTIONS = ["reference weights via fractions.Fraction (exact), rounded once to float64"]
 DECIDING_COUNTERS = ["taps_checked", "const_interior_samples", "varying_interior_samples",
+                     "inplace_update_histories",
                      "integer_shift_cases", "poly_cases", "df_cases", "const_vs_varying"]
 MIN_NONTRIVIAL = {"quick": 400, "thorough": 8000}
 JOBS = {"quick": 8, "thorough": 16}
@@ -236,6 +237,37 @@ def varying_case(rec, seedt, tier):
                           f"order {order}, N={N}, {kind} shifts: out[{n}]={out[n]!r}, reference "
                           f"stencil at n+s={n + sh[n]!r} gives {ref!r}")
             break
+    # History: the caller updates the SAME shift vector (and the same data buffer) in place and
+    # calls again - the result must be the interpolation for the current contents.
+    if N <= 20000 and seedt[-1] % 2 == 0:
+        sh += float(rng.choice([0.37, -1.25, 0.5, 2.0]))
+        if rng.random() < 0.5:
+            x *= 1.5
+        try:
+            out2 = np.asarray(dsp.timeshift(x, sh, order))
+        except Exception as e:
+            rec.violation("timeshift-raises", f"second call raised {type(e).__name__}: {e}")
+            return
+        rec.count("inplace_update_histories")
+        fl2 = np.floor(sh).astype(int)
+        lo2 = np.arange(N) + fl2 - (h - 1)
+        int2 = np.nonzero((lo2 >= 0) & (lo2 + 2 * h - 1 <= N - 1))[0]
+        mx2 = float(np.max(np.abs(x))) or 1.0
+        if int2.size:
+            for n in np.unique(rng.choice(int2, size=min(25, int2.size))):
+                ref = stencil_value(x, int(n), float(sh[n]), h)
+                if ref is not None and abs(float(out2[n]) - ref) > 1e-12 * mx2:
+                    rec.violation("stale-after-inplace-update",
+                                  f"order {order}, N={N}: second call after the shift vector was "
+                                  f"updated in place: out[{n}]={out2[n]!r}, reference {ref!r}")
+                    break
+        sh -= 0.0  # (kept as is: the comparison below uses the current vector)
+        out = out2
+        fl = fl2
+        interior = int2
+        mx = mx2
+        if interior.size == 0:
+            return
     if kind == "constant":
         rec.count("const_vs_varying")
         oc = np.asarray(dsp.timeshift(x, float(sh[0]), order))
@@ -264,6 +296,16 @@ def df_case(rec, seedt):
             "columns": cols, "inplace": inplace, "truncate": trunc}
     rec.case(desc, nontrivial=True)
     rec.count("df_cases")
+    # index flavours a caller's frame realistically has (slice that keeps its labels, float time
+    # index, rows re-ordered without reset_index): the wrapper works on row POSITION
+    ikind = str(rng.choice(["default", "default", "offset-labels", "float-time", "shuffled-labels"]))
+    if ikind == "offset-labels":
+        df.index = np.arange(1000, 1000 + N)
+    elif ikind == "float-time":
+        df.index = np.arange(N) / 7.0 + 3.5
+    elif ikind == "shuffled-labels":
+        df.index = rng.permutation(N)
+    desc["index"] = ikind
     df0 = df.copy(deep=True)
     try:
         out = dsp.df_timeshift(df, fs, seconds, columns=cols, truncate=trunc, inplace=inplace)
@@ -288,6 +330,9 @@ def df_case(rec, seedt):
     if len(out) != len(df0.iloc[sl]):
         rec.violation("df-truncate", f"truncate={trunc}: {len(out)} rows, expected "
                                      f"{len(df0.iloc[sl])}")
+        return
+    if not np.array_equal(np.asarray(out.index), np.asarray(df0.iloc[sl].index)):
+        rec.violation("df-index-changed", f"result index differs from the input's (index kind {ikind})")
         return
     for c in df.columns:
         numeric = df[c].dtype.kind in "biufc"
